@@ -66,14 +66,32 @@ fn pick<T: Copy>(b: u8, xs: &[T]) -> T {
 
 const FLOATS: [f64; 10] = [1.0, 0.0, 0.5, 7.25, 1e6, 0.1, 1.0 / 3.0, 0.30000000000000004, 123456.789, 2.2250738585072014e-308];
 
-fn mk_flow(f: &[u8], res: &str, k: usize) -> flow::Rule {
+/// an arbitrary finite non-negative f64 in [~1e-21, 1e6] built from 64 bits of entropy (full 52-bit
+/// mantissa, so that shortest-representation printing needs all 17 significant digits)
+fn arbitrary_float(bits: u64) -> f64 {
+    let mantissa = bits & ((1u64 << 52) - 1);
+    let exp = 1023 - 70 + (bits >> 52) % 90; // 2^-70 .. 2^19
+    f64::from_bits((exp << 52) | mantissa)
+}
+
+fn float_for(f: &[u8], idx: usize, k: usize, counters: &[u64]) -> f64 {
+    let b = f[idx].wrapping_add(k as u8 * 30);
+    if b >= 200 {
+        // the last quarter of the byte range selects an arbitrary float
+        arbitrary_float(counters[(k + idx) % counters.len()] ^ ((b as u64) << 56) ^ counters[0].rotate_left(17))
+    } else {
+        pick((b as u16 * 255 / 199) as u8, &FLOATS)
+    }
+}
+
+fn mk_flow(f: &[u8], res: &str, k: usize, cn: &[u64]) -> flow::Rule {
     flow::Rule {
         resource: res.into(),
         ref_resource: pick(f[10], &["", "other", "a|b"]).into(),
         calculate_strategy: pick(f[0].wrapping_add(k as u8 * 90), &[flow::CalculateStrategy::Direct, flow::CalculateStrategy::WarmUp, flow::CalculateStrategy::MemoryAdaptive]),
         control_strategy: pick(f[1], &[flow::ControlStrategy::Reject, flow::ControlStrategy::Throttling]),
         relation_strategy: pick(f[2], &[flow::RelationStrategy::Current, flow::RelationStrategy::Associated]),
-        threshold: pick(f[3].wrapping_add(k as u8 * 30), &FLOATS),
+        threshold: float_for(f, 3, k, cn),
         warm_up_period_sec: pick(f[4], &[0u32, 1, 10, u32::MAX]),
         warm_up_cold_factor: pick(f[5], &[0u32, 2, 3]),
         max_queueing_time_ms: pick(f[6], &[0u32, 10, 600_000]),
@@ -115,7 +133,7 @@ fn mk_hot(f: &[u8], res: &str, k: usize) -> hotspot::Rule {
     }
 }
 
-fn mk_cb(f: &[u8], res: &str, k: usize) -> cb::Rule {
+fn mk_cb(f: &[u8], res: &str, k: usize, cn: &[u64]) -> cb::Rule {
     cb::Rule {
         resource: res.into(),
         strategy: pick(f[0], &[cb::BreakerStrategy::ErrorCount, cb::BreakerStrategy::ErrorRatio, cb::BreakerStrategy::SlowRequestRatio]),
@@ -124,7 +142,7 @@ fn mk_cb(f: &[u8], res: &str, k: usize) -> cb::Rule {
         stat_interval_ms: pick(f[3], &[1000u32, 0, 7]),
         stat_sliding_window_bucket_count: pick(f[4], &[0u32, 1, 2, 7]),
         max_allowed_rt_ms: pick(f[5], &[0u64, 10]),
-        threshold: pick(f[6].wrapping_add(k as u8 * 30), &FLOATS),
+        threshold: float_for(f, 6, k, cn),
         ..Default::default()
     }
 }
@@ -133,7 +151,7 @@ fn mk_iso(f: &[u8], res: &str, k: usize) -> isolation::Rule {
     isolation::Rule { resource: res.into(), threshold: pick(f[0].wrapping_add(k as u8 * 70), &[1u32, 0, 2, u32::MAX]), ..Default::default() }
 }
 
-fn mk_sys(f: &[u8], k: usize) -> system::Rule {
+fn mk_sys(f: &[u8], k: usize, cn: &[u64]) -> system::Rule {
     system::Rule {
         metric_type: pick(f[0].wrapping_add(k as u8 * 60), &[
             system::MetricType::Concurrency,
@@ -143,7 +161,7 @@ fn mk_sys(f: &[u8], k: usize) -> system::Rule {
             system::MetricType::CpuUsage,
         ]),
         strategy: pick(f[1], &[system::AdaptiveStrategy::NoAdaptive, system::AdaptiveStrategy::BBR]),
-        threshold: pick(f[2], &FLOATS),
+        threshold: float_for(f, 2, k, cn),
         ..Default::default()
     }
 }
@@ -354,7 +372,7 @@ impl Property for C18 {
         vec![("prop", 300_000, 80), ("parse_rules", 1_500_000, 600), ("parse_metric_line", 2_000_000, 200)]
     }
     fn rule(&self) -> String {
-        "bytes -> family (five rule families or metric item), 1-3 rules built from the field menus of C12 (serialisable variants, finite floats incl. 0.1, 1/3, 0.30000000000000004, subnormal-boundary, extreme integers), resource name from a pool with unicode, quotes, backslashes, control characters, the `|` separator and the empty string, override maps with such keys; document variant: compact / pretty / fields reordered / one field dropped / one field wrongly typed or unknown variant / truncated at a generated byte / not an array; oracle: parser(to_string(rules)) equals the rules (PartialEq and every field via the JSON value), a dropped field equals Default (id: fresh), malformed documents are Err and never panic, the parsed rule gives the same decisions as the original on a short entry script (flow, isolation, hotspot); metric items with arbitrary counters: from_string(to_string(item)) equals the item with `|` replaced by `_` in the name; non-trivial = rule differs from Default in >= 3 fields, or the name needs escaping, or a field was dropped; distinct = distinct decoded cases".into()
+        "bytes -> family (five rule families or metric item), 1-3 rules built from the field menus of C12 (serialisable variants, finite floats incl. 0.1, 1/3, 0.30000000000000004, subnormal-boundary, and arbitrary 52-bit-mantissa values in [2^-70, 2^19], extreme integers), resource name from a pool with unicode, quotes, backslashes, control characters, the `|` separator and the empty string, override maps with such keys; document variant: compact / pretty / fields reordered / one field dropped / one field wrongly typed or unknown variant / truncated at a generated byte / not an array; oracle: parser(to_string(rules)) equals the rules (PartialEq and every field via the JSON value), a dropped field equals Default (id: fresh), malformed documents are Err and never panic, the parsed rule gives the same decisions as the original on a short entry script (flow, isolation, hotspot); metric items with arbitrary counters: from_string(to_string(item)) equals the item with `|` replaced by `_` in the name; non-trivial = rule differs from Default in >= 3 fields, or the name needs escaping, or a field was dropped; distinct = distinct decoded cases".into()
     }
     fn assumptions(&self) -> Vec<String> {
         vec![
@@ -372,7 +390,7 @@ impl Property for C18 {
         let script: Vec<(u64, u32)> = (0..6).map(|i| ([0u64, 1, 500, 1000][(f[13] as usize + i) % 4], 1 + ((f[12] as usize + i) % 3) as u32)).collect();
         let r: R = match case.family {
             0 => {
-                let rules: Vec<flow::Rule> = (0..n).map(|k| mk_flow(f, res, k)).collect();
+                let rules: Vec<flow::Rule> = (0..n).map(|k| mk_flow(f, res, k, &case.counters)).collect();
                 let r0 = rules[0].clone();
                 judge_rules(&case, rules, serde_json::to_value(flow::Rule::default()).unwrap()).and_then(|ok| {
                     if r0.calculate_strategy == flow::CalculateStrategy::Direct && r0.relation_strategy == flow::RelationStrategy::Current && !r0.resource.is_empty() {
@@ -403,7 +421,7 @@ impl Property for C18 {
                 })
             }
             2 => {
-                let rules: Vec<cb::Rule> = (0..n).map(|k| mk_cb(f, res, k)).collect();
+                let rules: Vec<cb::Rule> = (0..n).map(|k| mk_cb(f, res, k, &case.counters)).collect();
                 judge_rules(&case, rules, serde_json::to_value(cb::Rule::default()).unwrap())
             }
             3 => {
@@ -422,7 +440,7 @@ impl Property for C18 {
                 })
             }
             4 => {
-                let rules: Vec<system::Rule> = (0..n).map(|k| mk_sys(f, k)).collect();
+                let rules: Vec<system::Rule> = (0..n).map(|k| mk_sys(f, k, &case.counters)).collect();
                 judge_rules(&case, rules, serde_json::to_value(system::Rule::default()).unwrap())
             }
             _ => {
